@@ -104,6 +104,9 @@ def mesh_op(m, op):
         return m.remove_unused_nodes()
     if k == 'morphed':
         return m.morphed(lambda p: p[0] + 0.125 * p[0] * p[0])
+    if k == 'same_points':
+        # another mesh on the SAME point array object (sub-meshes, re-triangulations and m @ n parts share it): cells in reverse
+        return type(m)(m.p, m.t[:, ::-1])
     raise ValueError(k)
 
 
@@ -364,7 +367,7 @@ def apply(s, step, ctx):
             s.reuse += 1
         after()
     elif op == 'mesh_op':
-        kinds = ['refined', 'adaptive', 'translated', 'scaled', 'mirrored', 'restrict', 'tagged', 'oriented', 'removed_unused', 'morphed']
+        kinds = ['refined', 'adaptive', 'translated', 'scaled', 'mirrored', 'restrict', 'tagged', 'oriented', 'removed_unused', 'morphed', 'same_points']
         k = kinds[step['kind'] % len(kinds)]
         if k == 'adaptive' and kind not in ('tri', 'tet', 'line'):
             k = 'refined'
@@ -373,6 +376,8 @@ def apply(s, step, ctx):
         if k in ('refined', 'adaptive') and (kind == 'wedge' or m.nelements > 60):
             raise Reject()
         if k == 'mirrored' and type(m).__name__.endswith('2'):
+            k = 'translated'
+        if k == 'same_points' and (type(m).__name__.endswith('2') or m.subdomains or m.boundaries):
             k = 'translated'
         if k in ('restrict', 'removed_unused') and m.nelements < 2:
             raise Reject()
@@ -539,6 +544,13 @@ class PoolMachine(HistoryMachine):
         self.do(dict(op='mesh_op', mesh='last', kind=rel, picks=picks))
         self.do(dict(op='mesh_op', mesh='last', kind=6, picks=picks2))
         self.do(dict(op='touch', mesh=2, attr=3))
+
+    # one element instance used on a mesh, then on another mesh that shares the point array
+    @rule(mesh=INT, elem=INT)
+    def element_on_meshes_sharing_points(self, mesh, elem):
+        self.do(dict(op='assemble', mesh=mesh, elem=elem, basis=0, picks=[0]))
+        self.do(dict(op='mesh_op', mesh=mesh, kind=10, picks=[0]))
+        self.do(dict(op='assemble', mesh='last', elem=elem, basis=0, picks=[0]))
 
     @rule(mesh=INT, picks=st.lists(INT, min_size=1, max_size=3))
     def adaptive(self, mesh, picks):
